@@ -71,6 +71,11 @@ CHECKS["C10"]["harnesses"].append(
     dict(_HTTP, harness="Harness_C10_bodies", setup="Setup_C10_bodies", reach=["bodies.rejected", "bodies.ok"],
          what="malformed bodies / query strings on POST, GET, urlencoded form and application/graphql transports through the real Executor; recover hook must not run"))
 
+CHECKS["C10"]["harnesses"].append(
+    {"pkg": "graphql/handler/transport", "harness": "Harness_C10_multipartForm", "reach": ["form.ok", "form.rejected", "form.toolarge"], "workers": 8,
+     "quick": {"sample_models": 60, "sample_every": 3},
+     "what": "MultipartForm.Do: 12 part layouts x in-memory/spill x over-limit x (engine) failing CreateTemp/Open/Close; multipart.Reader/Part, os.File, MaxBytesReader are name-intercepted stubs under the engine; native replays use a real multipart body and a private TMPDIR"})
+
 CHECKS["C15"] = {
     "assumptions": ["crypto/sha256 runs natively on concrete texts; mapstructure.Decode is a contract model (flat struct, integers from any numeric/json.Number)",
                     "one-step induction: arbitrary cache pre-state satisfying key = SHA-256(text); eviction only removes entries"],
